@@ -326,8 +326,8 @@ theorem merged_fst_lt (bs : List Blk) (h : goodBlocks bs = true) :
   rwa [List.pairwise_map] at this
 
 /-- `optimize_and_combine_blocks` of an exon layout, on every strand -/
-theorem optimizeLoc_good (bs : List Blk) (st : Strand) (h : goodBlocks bs = true) (hne : bs ≠ []) :
-    ∃ l, optimizeLoc false ⟨bs, st⟩ = .ok l ∧ locBlocks l = mergedBlocks bs := by
+theorem optimizeLoc_good' (bs : List Blk) (st : Strand) (h : goodBlocks bs = true) (hne : bs ≠ []) :
+    ∃ l, optimizeLoc false ⟨bs, st⟩ = .ok l ∧ l = toSingleIfOne ⟨mergedBlocks bs, st⟩ := by
   obtain ⟨hp, hpos⟩ := (good_iff bs).1 h
   have hv : ∀ b ∈ bs, b.1 ≤ b.2 := fun b hb => Nat.le_of_lt (hpos b hb)
   have hloop : (combineLoop false bs none [] false).1 = mergedBlocks bs := by
@@ -342,7 +342,7 @@ theorem optimizeLoc_good (bs : List Blk) (st : Strand) (h : goodBlocks bs = true
       rw [hcl] at this
       simp only [List.reverse_nil, List.nil_append] at this
       refine ⟨toSingleIfOne ⟨bs, st⟩, by simp [pure, Except.pure], ?_⟩
-      rw [locBlocks_toSingle, ← hnb, this]
+      rw [← hnb, this]
     | true =>
       have hmne : mergedBlocks bs ≠ [] := by
         cases bs with
@@ -374,9 +374,14 @@ theorem optimizeLoc_good (bs : List Blk) (st : Strand) (h : goodBlocks bs = true
       have hmk := mkCompoundLoc_ok st hmne hvalid
       rw [sortBlocks_of_fst_lt st (merged_fst_lt bs h)] at hmk
       have he : (mergedBlocks bs).isEmpty = false := by simpa using hmne
-      refine ⟨toSingleIfOne ⟨mergedBlocks bs, st⟩, ?_, locBlocks_toSingle _⟩
+      refine ⟨toSingleIfOne ⟨mergedBlocks bs, st⟩, ?_, rfl⟩
       simp only [Bool.true_eq_false, not_false_eq_true, not_true_eq_false, if_false, he, hnb, hmk, bind, Except.bind,
         Bool.false_eq_true, pure, Except.pure]
+
+theorem optimizeLoc_good (bs : List Blk) (st : Strand) (h : goodBlocks bs = true) (hne : bs ≠ []) :
+    ∃ l, optimizeLoc false ⟨bs, st⟩ = .ok l ∧ locBlocks l = mergedBlocks bs := by
+  obtain ⟨l, h1, h2⟩ := optimizeLoc_good' bs st h hne
+  exact ⟨l, h1, by rw [h2, locBlocks_toSingle]⟩
 
 /-- **block merging in `TblGene`**: the merged exon blocks are the maximal runs of the covered positions -/
 theorem mergeExons_runs (t : Tx) (h : goodBlocks t.exons = true) (hne : t.exons ≠ []) :
